@@ -96,6 +96,7 @@ type valDom struct {
 	minIdx, maxIdx int
 	minV, maxV     float64 // smallest / largest value that is tracked in a bin
 	hint           []int   // bins worth probing on purpose (gen.HintIndexes), when they lie in the window
+	wideLo, wideHi int     // if set (wideLo < wideHi): the bins that operations reaching beyond the window (spreads) may touch
 }
 
 func newDomain(m mapping.IndexMapping) valDom {
